@@ -228,6 +228,12 @@ lazy_static! {
   static ref CHILD_LIMIT_PROVIDER: Arc<Mutex<Box<dyn ChildLimitProvider + Sync + Send + 'static>>> = Arc::new(Mutex::new(Box::new(DefaultChildLimitProvider::new())));
 }
 
+/// verification hook: clear the poison flag of the child limit strategy lock
+#[cfg(feature = "verif-hooks")]
+pub fn verif_clear_poison() {
+  CHILD_LIMIT_PROVIDER.clear_poison();
+}
+
 /// 童限（从出生到起运的时间段）
 #[derive(Debug, Clone)]
 pub struct ChildLimit {
